@@ -49,13 +49,13 @@ Qed.
 Lemma min_ttl_loop_spec l : forall acc has mn h,
   min_ttl_loop l acc has = (mn, h) ->
   (mn <= acc)%N /\
-  (forall r, In r l -> is_opt r = false -> (mn <= r_ttl r)%N) /\
-  h = (has || existsb (fun r => negb (is_opt r)) l)%bool /\
-  (mn = acc \/ exists r, In r l /\ is_opt r = false /\ r_ttl r = mn).
+  (forall r, In r l -> cp_is_opt r = false -> (mn <= r_ttl r)%N) /\
+  h = (has || existsb (fun r => negb (cp_is_opt r)) l)%bool /\
+  (mn = acc \/ exists r, In r l /\ cp_is_opt r = false /\ r_ttl r = mn).
 Proof.
   induction l as [|r l IH]; cbn [min_ttl_loop existsb]; intros acc has mn h H.
   - inversion H; subst. split; [lia|]. split; [intros r []|]. split; [now rewrite orb_false_r|now left].
-  - destruct (is_opt r) eqn:Eo; cbn [negb orb].
+  - destruct (cp_is_opt r) eqn:Eo; cbn [negb orb].
     + apply IH in H. destruct H as (H1 & H2 & H3 & H4). repeat split; auto.
       * intros r' [<-|Hin] Hr'; [congruence|auto].
       * destruct H4 as [->|(r' & Hin & Ho & Ht)]; [now left|right; exists r'; cbn; auto].
@@ -77,9 +77,9 @@ Qed.
 Lemma get_minimal_ttl_some m u :
   get_minimal_ttl m = (u, true) ->
   (u <= u32max)%N /\
-  (forall r, In r (rrs m) -> is_opt r = false -> (u <= r_ttl r)%N) /\
-  ((exists r, In r (rrs m) /\ is_opt r = false /\ r_ttl r = u) \/
-   (u = u32max /\ exists r, In r (rrs m) /\ is_opt r = false)).
+  (forall r, In r (rrs m) -> cp_is_opt r = false -> (u <= r_ttl r)%N) /\
+  ((exists r, In r (rrs m) /\ cp_is_opt r = false /\ r_ttl r = u) \/
+   (u = u32max /\ exists r, In r (rrs m) /\ cp_is_opt r = false)).
 Proof.
   unfold get_minimal_ttl. destruct (min_ttl_loop (rrs m) u32max false) as [mn h] eqn:E.
   apply min_ttl_loop_spec in E. destruct E as (H1 & H2 & H3 & H4).
@@ -87,19 +87,19 @@ Proof.
   split; [exact H1|]. split; [exact H2|].
   destruct H4 as [->|H4]; [right|left; exact H4].
   split; [reflexivity|]. cbn [orb] in H3. symmetry in H3. apply existsb_exists in H3.
-  destruct H3 as (r & Hin & Hr). exists r. split; [exact Hin|]. now destruct (is_opt r).
+  destruct H3 as (r & Hin & Hr). exists r. split; [exact Hin|]. now destruct (cp_is_opt r).
 Qed.
 
 (* ok = false: the message has no record besides OPT, and the returned TTL is 0 *)
 Lemma get_minimal_ttl_none m u :
-  get_minimal_ttl m = (u, false) -> u = 0%N /\ forall r, In r (rrs m) -> is_opt r = true.
+  get_minimal_ttl m = (u, false) -> u = 0%N /\ forall r, In r (rrs m) -> cp_is_opt r = true.
 Proof.
   unfold get_minimal_ttl. destruct (min_ttl_loop (rrs m) u32max false) as [mn h] eqn:E.
   apply min_ttl_loop_spec in E. destruct E as (H1 & H2 & H3 & H4).
   destruct h; intros H; inversion H; subst; clear H.
   split; [reflexivity|]. intros r Hin. cbn [orb] in H3.
-  destruct (is_opt r) eqn:Eo; [reflexivity|].
-  assert (existsb (fun r => negb (is_opt r)) (rrs m) = true); [|congruence].
+  destruct (cp_is_opt r) eqn:Eo; [reflexivity|].
+  assert (existsb (fun r => negb (cp_is_opt r)) (rrs m) = true); [|congruence].
   apply existsb_exists. exists r. rewrite Eo. auto.
 Qed.
 
@@ -203,8 +203,8 @@ Lemma msg_lifetime_table mx m : 0 < mx ->
   (rcode = RCodeNameError -> L <= 30 * SECOND) /\
   (rcode = RCodeServerFailure -> L <= 1 * SECOND) /\
   (rcode <> RCodeSuccess -> rcode <> RCodeNameError -> rcode <> RCodeServerFailure -> L <= 5 * SECOND) /\
-  ((forall r, In r (rrs m) -> is_opt r = true) -> L <= 30 * SECOND) /\
-  (rcode = RCodeSuccess -> forall r, In r (rrs m) -> is_opt r = false -> L <= Z.max SECOND (Z.of_N (r_ttl r) * SECOND)).
+  ((forall r, In r (rrs m) -> cp_is_opt r = true) -> L <= 30 * SECOND) /\
+  (rcode = RCodeSuccess -> forall r, In r (rrs m) -> cp_is_opt r = false -> L <= Z.max SECOND (Z.of_N (r_ttl r) * SECOND)).
 Proof.
   intros Hm L rcode. subst L rcode. unfold msg_lifetime.
   destruct (get_minimal_ttl m) as [u h] eqn:E.
@@ -228,10 +228,10 @@ Proof.
 Qed.
 
 (* ================================================================== SubtractTTL *)
-Lemma sub_rr_opt delta r : is_opt r = true -> sub_rr delta r = r.
+Lemma sub_rr_opt delta r : cp_is_opt r = true -> sub_rr delta r = r.
 Proof. unfold sub_rr. now intros ->. Qed.
 
-Lemma sub_rr_aged delta r : is_opt r = false -> sub_rr delta r = set_ttl r (aged delta (r_ttl r)).
+Lemma sub_rr_aged delta r : cp_is_opt r = false -> sub_rr delta r = set_ttl r (aged delta (r_ttl r)).
 Proof.
   unfold sub_rr, aged. intros ->. destruct (delta <? r_ttl r)%N eqn:E; f_equal; lia.
 Qed.
@@ -249,23 +249,23 @@ Lemma subtract_ttl_spec delta m :
 Proof.
   split.
   - rewrite rrs_subtract. induction (rrs m) as [|r l IH]; cbn [map]; constructor; auto.
-    unfold rr_aged. destruct (is_opt r) eqn:E; [now apply sub_rr_opt|now apply sub_rr_aged].
+    unfold rr_aged. destruct (cp_is_opt r) eqn:E; [now apply sub_rr_opt|now apply sub_rr_aged].
   - unfold subtract_ttl. cbn. now rewrite !map_length.
 Qed.
 
 (* every record of the aged message: TTL <= max 1 (ttl - delta); nothing else changes; OPT untouched *)
 Lemma rr_aged_bound delta r r' : rr_aged delta r r' ->
-  (is_opt r = true -> r' = r) /\
-  (is_opt r = false -> r_ttl r' = N.max 1 (r_ttl r - delta) /\ (r_ttl r' <= N.max 1 (r_ttl r - delta))%N /\ (1 <= r_ttl r')%N) /\
+  (cp_is_opt r = true -> r' = r) /\
+  (cp_is_opt r = false -> r_ttl r' = N.max 1 (r_ttl r - delta) /\ (r_ttl r' <= N.max 1 (r_ttl r - delta))%N /\ (1 <= r_ttl r')%N) /\
   r_name r' = r_name r /\ r_type r' = r_type r /\ r_class r' = r_class r /\ r_len r' = r_len r /\ r_data r' = r_data r.
 Proof.
-  unfold rr_aged. destruct (is_opt r); intros ->; cbn; repeat split; try discriminate; auto; lia.
+  unfold rr_aged. destruct (cp_is_opt r); intros ->; cbn; repeat split; try discriminate; auto; lia.
 Qed.
 
 Lemma aged_ok_subtract delta m : aged_ok delta (rrs m) (rrs (subtract_ttl delta m)) = true.
 Proof.
   rewrite rrs_subtract. induction (rrs m) as [|r l IH]; cbn [map aged_ok]; [reflexivity|].
-  rewrite IH, andb_true_r. destruct (is_opt r) eqn:E.
+  rewrite IH, andb_true_r. destruct (cp_is_opt r) eqn:E.
   - rewrite sub_rr_opt by exact E. apply N.eqb_refl.
   - rewrite sub_rr_aged by exact E. cbn. apply N.eqb_refl.
 Qed.
@@ -292,7 +292,7 @@ Proof.
   rewrite find_remove, N.eqb_sym, E. reflexivity.
 Qed.
 
-(* ================================================================== one step *)
+(* ================================================================== one cp_step *)
 Lemma store_skip_none mx st t eps k pk : cachectl_store mx st t eps k None pk = (st, OSkipped).
 Proof. reflexivity. Qed.
 
@@ -314,7 +314,7 @@ Proof.
   rewrite store_not_cacheable in H by exact E. inversion H; subst. congruence.
 Qed.
 
-(* negative responses are stored set-if-absent: an entry that is present (live or not) is never displaced *)
+(* negative responses are stored set-if-absent: an cp_entry that is present (live or not) is never displaced *)
 Lemma store_negative_keeps mx st t eps k m pk e :
   negative m = true -> find k (st_map st) = Some e ->
   exists o, cachectl_store mx st t eps k (Some m) pk = (st, o) /\
@@ -359,29 +359,29 @@ Lemma run_app mx st evs1 evs2 :
 Proof.
   revert st. induction evs1 as [|ev evs1 IH]; intros st; cbn [app run].
   - destruct (run mx st evs2). reflexivity.
-  - destruct (step mx st ev) as [st1 o]. rewrite IH.
+  - destruct (cp_step mx st ev) as [st1 o]. rewrite IH.
     destruct (run mx st1 evs1) as [st2 os]. destruct (run mx st2 evs2). reflexivity.
 Qed.
 
 Lemma run_snoc mx st evs ev :
-  fst (run mx st (evs ++ [ev])) = fst (step mx (fst (run mx st evs)) ev).
+  fst (run mx st (evs ++ [ev])) = fst (cp_step mx (fst (run mx st evs)) ev).
 Proof.
   rewrite run_app. destruct (run mx st evs) as [st1 o1]. cbn [run fst].
-  destruct (step mx st1 ev). reflexivity.
+  destruct (cp_step mx st1 ev). reflexivity.
 Qed.
 
 Lemma run_length mx st evs : length (snd (run mx st evs)) = length evs.
 Proof.
   revert st. induction evs as [|ev evs IH]; intros st; cbn [run]; [reflexivity|].
-  destruct (step mx st ev) as [st1 o]. specialize (IH st1). destruct (run mx st1 evs). cbn in *. now rewrite IH.
+  destruct (cp_step mx st ev) as [st1 o]. specialize (IH st1). destruct (run mx st1 evs). cbn in *. now rewrite IH.
 Qed.
 
-(* ---- invariant 1 (no assumption): every entry was put there by a Store event of the history *)
-Definition entry_src (mx : Z) (hist : list event) (k : key) (e : entry) : Prop :=
+(* ---- invariant 1 (no assumption): every cp_entry was put there by a Store event of the history *)
+Definition entry_src (mx : Z) (hist : list event) (k : key) (e : cp_entry) : Prop :=
   exists eps m, In (EvStore (e_stored e) eps k (Some m) true) hist /\
     e_msg e = m /\ h_tc (m_hdr m) = false /\ e_expire e = e_stored e + msg_lifetime mx m /\ e_neg e = negative m.
 
-Definition inv_src (mx : Z) (hist : list event) (st : state) : Prop :=
+Definition inv_src (mx : Z) (hist : list event) (st : cp_state) : Prop :=
   forall k e, find k (st_map st) = Some e -> entry_src mx hist k e.
 
 Lemma entry_src_mono mx hist ev k e : entry_src mx hist k e -> entry_src mx (hist ++ [ev]) k e.
@@ -390,9 +390,9 @@ Proof.
 Qed.
 
 Lemma inv_src_step mx hist st ev :
-  inv_src mx hist st -> inv_src mx (hist ++ [ev]) (fst (step mx st ev)).
+  inv_src mx hist st -> inv_src mx (hist ++ [ev]) (fst (cp_step mx st ev)).
 Proof.
-  intros Hinv k e. destruct ev as [c|t eps k0 resp pk|t k0|k0|k0]; cbn [step fst].
+  intros Hinv k e. destruct ev as [c|t eps k0 resp pk|t k0|k0|k0]; cbn [cp_step fst].
   - cbn. intros H. apply entry_src_mono, Hinv, H.
   - destruct (cachectl_store mx st t eps k0 resp pk) as [st' o] eqn:Es. cbn [fst].
     assert (Hcases : st' = st \/ exists L, o = OStored L).
@@ -431,7 +431,7 @@ Proof. intros k e H. discriminate. Qed.
 Lemma reachable_src mx clk evs : inv_src mx evs (fst (run mx (init_state clk) evs)).
 Proof. apply (inv_src_run mx evs [] (init_state clk)), inv_src_init. Qed.
 
-(* ---- invariant 2 (under the clock assumption): the otter expiration of every entry is tied to its wall-clock expiry *)
+(* ---- invariant 2 (under the clock assumption): the otter expiration of every cp_entry is tied to its wall-clock expiry *)
 
 Lemma ev_okb_sound lag mx clk ev : ev_okb lag mx clk ev = true -> ev_ok lag mx clk ev.
 Proof.
@@ -452,14 +452,14 @@ Lemma hist_ok_app lag mx st evs1 evs2 :
 Proof.
   revert st. induction evs1 as [|ev evs1 IH]; intros st; cbn [app hist_ok run].
   - cbn. tauto.
-  - destruct (step mx st ev) as [st1 o] eqn:Es. cbn [fst]. rewrite IH.
+  - destruct (cp_step mx st ev) as [st1 o] eqn:Es. cbn [fst]. rewrite IH.
     destruct (run mx st1 evs1) as [st2 os]. cbn [fst]. tauto.
 Qed.
 
-Definition entry_clk (e : entry) : Prop :=
+Definition entry_clk (e : cp_entry) : Prop :=
   SECOND <= e_expire e - e_stored e /\ Z.of_N (e_exp e) * SECOND <= e_expire e + SECOND - 1.
 
-Definition inv_clk (st : state) : Prop := forall k e, find k (st_map st) = Some e -> entry_clk e.
+Definition inv_clk (st : cp_state) : Prop := forall k e, find k (st_map st) = Some e -> entry_clk e.
 
 (* otter's rounding: clk + ceil((L - eps) / 1 s), no wrap, is at most (s + L)/1 s + 1 - 1 ns *)
 Lemma otter_expiration_bound clk L eps t mx :
@@ -478,9 +478,9 @@ Proof.
 Qed.
 
 Lemma inv_clk_step lag mx st ev :
-  SECOND <= mx -> inv_clk st -> ev_ok lag mx (st_clk st) ev -> inv_clk (fst (step mx st ev)).
+  SECOND <= mx -> inv_clk st -> ev_ok lag mx (st_clk st) ev -> inv_clk (fst (cp_step mx st ev)).
 Proof.
-  intros Hmx Hinv Hok k e. destruct ev as [c|t eps k0 resp pk|t k0|k0|k0]; cbn [step fst].
+  intros Hmx Hinv Hok k e. destruct ev as [c|t eps k0 resp pk|t k0|k0|k0]; cbn [cp_step fst].
   - cbn. apply Hinv.
   - destruct (cachectl_store mx st t eps k0 resp pk) as [st' o] eqn:Es. cbn [fst].
     assert (Hcases : st' = st \/ exists L, o = OStored L).
@@ -511,14 +511,14 @@ Proof.
   intros Hmx. induction evs as [|ev evs IH]; intros st Hinv Hok; cbn [run].
   - exact Hinv.
   - destruct Hok as [Hev Hrest]. pose proof (inv_clk_step lag mx st ev Hmx Hinv Hev) as H1.
-    destruct (step mx st ev) as [st1 o]. cbn [fst] in *.
+    destruct (cp_step mx st ev) as [st1 o]. cbn [fst] in *.
     specialize (IH st1 H1 Hrest). destruct (run mx st1 evs). exact IH.
 Qed.
 
 Lemma inv_clk_init clk : inv_clk (init_state clk).
 Proof. intros k e H. discriminate. Qed.
 
-(* a live entry read by a clock that lags less than [lag]: the wall clock is before expire + lag *)
+(* a live cp_entry read by a clock that lags less than [lag]: the wall clock is before expire + lag *)
 Lemma live_before_expiry lag clk e t :
   entry_clk e -> has_expired clk e = false -> t - lag < Z.of_N clk * SECOND -> t < e_expire e + lag.
 Proof.
@@ -561,7 +561,7 @@ Proof.
 Qed.
 
 
-Lemma steps_sat_all (P : state -> event -> state -> out -> Prop) mx : (forall st ev, P st ev (fst (step mx st ev)) (snd (step mx st ev))) ->
+Lemma steps_sat_all (P : cp_state -> event -> cp_state -> out -> Prop) mx : (forall st ev, P st ev (fst (cp_step mx st ev)) (snd (cp_step mx st ev))) ->
   forall evs st, steps_sat P mx st evs.
 Proof. intros HP. induction evs as [|ev evs IH]; intros st; cbn; auto. Qed.
 
@@ -581,7 +581,7 @@ Lemma negative_store_noop mx st t eps k m pk e evs :
             (fst (run mx st evs), o :: snd (run mx st evs)) /\ (o = OSkipped \/ o = OKept (msg_lifetime mx m)).
 Proof.
   intros Hn Hf. destruct (store_negative_keeps mx st t eps k m pk e Hn Hf) as (o & Hs & Ho).
-  exists o. split; [|exact Ho]. cbn [run step]. rewrite Hs. destruct (run mx st evs). reflexivity.
+  exists o. split; [|exact Ho]. cbn [run cp_step]. rewrite Hs. destruct (run mx st evs). reflexivity.
 Qed.
 
 (* ================================================================== router level *)
